@@ -73,8 +73,16 @@ def gen_cases(rng, ctx):
                 reqs = [req(1, b"@A", good, b"x"), req(1, b"@A", bad), req(1, b"@B", bad2), req(1, b"@A", b"Bearer " + bearer), req(6, b"http://@A/x", good),
                         req(1, b"localhost", good), req(1, b"_udp2", good, dgram()), req(1, b"_check", bad), req(7, b"http://@R/p", good, b"body"),
                         req(1, b"@A", b"Basic \xff" + base64.b64encode(b"u1:" + wrong)), req(6, b"http://_check/", good), req(1, b"@A", None)]
+                # credentials in a Proxy-Authorization value that is not of the form 'Basic <token>': whatever the endpoint says about
+                # such a value must not show it
+                tokw = base64.b64encode(b"u1:" + wrong)
+                tokg = base64.b64encode(b"canaryuser:" + CFGPW)
+                odd = [req(1, b"@A", tokw), req(1, b"@A", b"Basic\t" + tokw), req(1, b"@A", b"basic " + tokg), req(1, b"@A", b"Basic" + tokw),
+                       req(1, b"@A", b"Basic  " + tokg), req(1, b"_check", tokg + b" Basic"), req(1, b"@A", b"Digest " + tokw)]
+                rng.shuffle(odd)
+                reqs += odd[:3]
                 rng.shuffle(reqs)
-                for r in reqs[:rng.choice([4, 8, 12])]:
+                for r in reqs[:rng.choice([5, 10, 15])]:
                     toks += r
                 wrap(1, needles, toks, "tunnel:auth%d-sni%d-%s%s" % (acfg, sni, "h3" if front == 3 else "h%d" % (2 if http2 else 1), "-listener" if front else ""), names)
         authz = ("AUTHZ-%s-canary" % tag).encode()
